@@ -14,7 +14,8 @@ PROP = "C06"
 LEVEL = "other"
 MODULE = "PropC06"
 THEOREMS = ["C06_lexer_next_terminates", "C06_new_lexer_wf", "C06_next_keeps_wf", "C06_eof_forces_progress",
-            "C06_spans_inside_input", "C06_only_eof_state_can_abort"]
+            "C06_spans_inside_input", "C06_only_eof_state_can_abort", "C06_parser_total",
+            "C06_program_never_out_of_fuel", "C06_successful_parse_consumes_a_token"]
 
 
 def special_inputs(tier):
@@ -107,6 +108,20 @@ def run(tier, seed):
                      (o.get("code_added"), o.get("process_out_is_report")), inp, o)
         else:
             stats["accepted"] += 1
+    # the grammar model (about which totality is proved) against parser.Parse on a sample of these inputs
+    small = [i for i in inputs if len(i) <= 120]
+    sample = rng.sample(small, min(len(small), 900 if tier == "quick" else 20000))
+    souts = vlib.run_harness("parse", [{"input": i, "timeout_ms": 5000} for i in sample], timeout=7200)
+    import treegen
+    sterms = ["(%s, %s)" % (treegen.coq_str(bytes(i)), "(Some [" + ";".join(o["trees"]) + "])" if "trees" in o else "(@None (list node))")
+              for i, o in zip(sample, souts)]
+    scodes = vlib.coq_eval_codes("c06p", ["Base", "Bytecode", "Value", "FloatText", "Ast", "Lexer", "Grammar", "Printer", "CorrParse"],
+                                 sterms, "chk_parse", shard=150)
+    for k in sorted(scodes)[:3]:
+        nviol += 1
+        run.violation({"what": "parser.Parse and the grammar model (Grammar.v) differ on this input (code %d): the totality "
+                               "theorem no longer speaks about the code" % scodes[k], "input_bytes": sample[k],
+                       "input_text": bytes(sample[k]).decode("latin-1"), "observed": souts[k]}, no_failing_input=True)
     # -eval: nothing of an input with a syntax error is run
     ev = 0
     for src in ["write(7)\n2 +", "write(7) )", "write(1) write(2) +", "{\nwrite(3)\n", "write(5) \"abc"]:
@@ -122,7 +137,7 @@ def run(tier, seed):
                        "400 digits, nesting depth %d, every construct cut short), all strings up to length %d over a 16-class "
                        "alphabet, and %d random inputs (token soup, random bytes, damaged programs). For every rejected input: span "
                        "inside the input, report printable, nothing compiled or executed; -eval likewise. Proved: the lexer model "
-                       "terminates and stays well formed on every input (PropC06.v). Parser totality is open; K3 (Go stack limit at "
+                       "terminates and stays well formed on every input and the grammar model never exhausts its fuel (PropC06.v); K3 (Go stack limit at "
                        "about 10^6 nested brackets) is a known finding." %
                        (len(special_inputs(tier)), 10000 if tier == "quick" else 100000, 3 if tier == "quick" else 4, nrand),
         "evaluations": len(inputs) + ev,
